@@ -2,6 +2,7 @@
 package main
 
 import (
+	"context"
 	"fmt"
 	"time"
 
@@ -86,6 +87,81 @@ func scenarios(tier string) []*hn.Scenario {
 	return out
 }
 
+// busy-broker scenarios: the Send under test runs while another Send is stuck in
+// a blocked node and a registry call is in flight; cancellation must still let it return.
+type busy struct {
+	Name  string
+	Other string
+	Bound int
+}
+
+func busyScenarios(tier string) []busy {
+	b := 1
+	if tier == "thorough" {
+		b = 2
+	}
+	var out []busy
+	for _, o := range []string{"setthr", "setthrs", "regnode", "regpipe", "rmpipe-other", "getthr", "reopen"} {
+		out = append(out, busy{Other: o, Bound: b})
+	}
+	for i := range out {
+		out[i].Name = fmt.Sprintf("busy broker: Send#1 stuck in a blocked node || %s || Send#2 with a canceller", out[i].Other)
+	}
+	return out
+}
+
+func busyBody(c busy) func() string {
+	return func() string {
+		log := &hn.Log{}
+		gate := &vrt.Gate{}
+		b, _ := el.NewBroker()
+		reg := func(id string, n *hn.Node) {
+			if err := b.RegisterNode(el.NodeID(id), n.AsNode()); err != nil {
+				vrt.Fail("fixture: %v", err)
+			}
+		}
+		reg("f", hn.NewNode(log, "f", el.NodeTypeFilter, hn.Block, gate))
+		reg("m", hn.NewNode(log, "m", el.NodeTypeFormatter, hn.Pass, gate))
+		reg("s", hn.NewNode(log, "s", el.NodeTypeSink, hn.Drop, gate))
+		if err := b.RegisterPipeline(el.Pipeline{PipelineID: "p1", EventType: "t", NodeIDs: []el.NodeID{"f", "m", "s"}}); err != nil {
+			vrt.Fail("fixture: %v", err)
+		}
+		if err := b.RegisterPipeline(el.Pipeline{PipelineID: "p2", EventType: "u", NodeIDs: []el.NodeID{"m", "s"}}); err != nil {
+			vrt.Fail("fixture: %v", err)
+		}
+		ctx1, cancel1 := context.WithCancel(context.Background())
+		ctx2, cancel2 := context.WithCancel(context.Background())
+		defer cancel1()
+		defer cancel2()
+		vrt.GoNamed("send1", func() { b.Send(ctx1, "t", "one") })
+		vrt.GoNamed("other", func() {
+			switch c.Other {
+			case "setthr":
+				b.SetSuccessThreshold("t", 1)
+			case "setthrs":
+				b.SetSuccessThresholdSinks("t", 1)
+			case "regnode":
+				b.RegisterNode("z", hn.NewNode(log, "z", el.NodeTypeSink, hn.Drop, gate).AsNode())
+			case "regpipe":
+				b.RegisterPipeline(el.Pipeline{PipelineID: "p3", EventType: "t", NodeIDs: []el.NodeID{"m", "s"}})
+			case "rmpipe-other":
+				b.RemovePipeline("u", "p2")
+			case "getthr":
+				b.SuccessThreshold("t")
+			case "reopen":
+				b.Reopen(context.Background())
+			}
+		})
+		vrt.GoNamed("canceller2", func() { cancel2() })
+		_, err := b.Send(ctx2, "t", "two")
+		// Send#2 returned (else the execution deadlocks: the gate opens only now)
+		cancel1()
+		gate.Open()
+		vrt.Join()
+		return fmt.Sprintf("send2 err=%v", err != nil)
+	}
+}
+
 func body(sc *hn.Scenario) func() string {
 	return func() string {
 		o := sc.Run()
@@ -106,15 +182,23 @@ func main() {
 			for _, s := range scenarios(tier) {
 				n = append(n, s.Name)
 			}
+			for _, s := range busyScenarios(tier) {
+				n = append(n, s.Name)
+			}
 			return n
 		},
 		SplitScenario: func(tier string, scn int) bool { return true },
 		RunJob: func(tier string, job hk.Job, deadline time.Time) *hk.Result {
+			if all := scenarios(tier); job.Scn >= len(all) {
+				c := busyScenarios(tier)[job.Scn-len(all)]
+				ex := &vrt.Explorer{Bound: c.Bound, FreeBound: 4, Body: busyBody(c)}
+				return hk.ExploreJob(prop, job, deadline, ex, c.Name)
+			}
 			sc := scenarios(tier)[job.Scn]
 			ex := &vrt.Explorer{Bound: sc.Bound, Permute: false, Body: body(sc)}
 			return hk.ExploreJob(prop, job, deadline, ex, sc.Describe())
 		},
-		Rule: "stateless DFS over all schedules (thread switches at every lock/channel/select/WaitGroup/sync.Map step of the real graph.process/doProcess, select-arm choices, cancel placed at every scheduling point) of each dispatch skeleton, preemption-bounded; an outcome is distinct if (Status, error, ctx state, invoked nodes) differ; every execution is checked for deadlock, panic, primitive misuse, leaked goroutines",
+		Rule: "stateless DFS over all schedules (thread switches at every lock/channel/select/WaitGroup/sync.Map step of the real graph.process/doProcess, select-arm choices, cancel placed at every scheduling point) of each dispatch skeleton, preemption-bounded; an outcome is distinct if (Status, error, ctx state, invoked nodes) differ; every execution is checked for deadlock, panic, primitive misuse, leaked goroutines; plus 'busy broker' scenarios: the Send under test runs while another Send is stuck inside a blocked node and a registry call (threshold setter / getter, RegisterNode, RegisterPipeline, RemovePipeline, Reopen) is in flight - its cancellation must still let it return (bound 1 / 2, at most 4 non-default switches at blocking points)",
 		Assumptions: []string{
 			"scheduling points at synchronisation operations only (sound for data-race-free code; race freedom is decided by C04/C19)",
 			"promptness is judged in scheduler steps: blocked nodes are released only after Send returned, so a Send that needs node progress after cancellation deadlocks in the model",
